@@ -226,6 +226,29 @@ def d25():  # C08: remove / replace act on the object that is passed, not on an 
     return ok and lib.blocks[0] is c1 and lib.blocks[1] is e and len(lib.blocks) == 2
 
 
+def d26():  # C15: a month value that is an int too large for Python to print is returned unchanged, not a ValueError
+    from bibtexparser.middlewares.month import MonthAbbreviationMiddleware, MonthIntMiddleware, MonthLongStringMiddleware
+    from bibtexparser.model import Entry, Field
+    ok = True
+    for M in (MonthLongStringMiddleware, MonthAbbreviationMiddleware, MonthIntMiddleware):
+        for v in (10 ** 5000, -(10 ** 5000)):
+            e = M().transform_entry(Entry("article", "k", [Field("month", v)]), None)
+            ok = ok and e.fields[0].value is v
+    return ok
+
+
+def d27():  # C06: a warning comment like '{n.foo}' / '{n[0]}' (no template an int can serve) is written as it is
+    import bibtexparser
+    from bibtexparser.writer import BibtexFormat
+    lib = bibtexparser.parse_string("@a{k, t = {x}")
+    ok = True
+    for c in ("% {n.foo}", "% {n[0]}"):
+        f = BibtexFormat()
+        f.parsing_failed_comment = c
+        ok = ok and bibtexparser.write_string(lib, bibtex_format=f).startswith(c + "\n@a{k")
+    return ok
+
+
 if __name__ == "__main__":
     bad = 0
     for name, f in sorted(((k, v) for k, v in globals().items() if k[0] == "d" and k[1:].isdigit()), key=lambda kv: int(kv[0][1:])):
